@@ -17,6 +17,11 @@ pub struct ClockPlan {
 }
 
 struct ClockState {
+   /// value of the first reading taken after the current plan was installed (`__start_time` of a
+   /// `run_timeout` call) and the reading indices of every `elapsed()` evaluated on that instant,
+   /// i.e. of the deadline checks (meaningful when the plan's tick makes instants distinct)
+   start_value: Option<u64>,
+   deadline_checks: Vec<u64>,
    now_ns: u64,
    /// readings since the plan was installed
    reading: u64,
@@ -26,7 +31,7 @@ struct ClockState {
 }
 
 static CLOCK: Mutex<ClockState> =
-   Mutex::new(ClockState { now_ns: 0, reading: 0, total_readings: 0, plan: ClockPlan { tick_ns: 0, jumps: Vec::new() } });
+   Mutex::new(ClockState { start_value: None, deadline_checks: Vec::new(), now_ns: 0, reading: 0, total_readings: 0, plan: ClockPlan { tick_ns: 0, jumps: Vec::new() } });
 
 /// Harness: clock back to 0 with an empty plan (start of an execution).
 pub fn reset() {
@@ -34,6 +39,8 @@ pub fn reset() {
    c.now_ns = 0;
    c.reading = 0;
    c.total_readings = 0;
+   c.start_value = None;
+   c.deadline_checks.clear();
    c.plan = ClockPlan::default();
 }
 
@@ -41,6 +48,8 @@ pub fn reset() {
 pub fn set_plan(plan: ClockPlan) {
    let mut c = CLOCK.lock().unwrap();
    c.reading = 0;
+   c.start_value = None;
+   c.deadline_checks.clear();
    c.plan = plan;
 }
 
@@ -50,6 +59,20 @@ pub fn readings_since_plan() -> u64 { CLOCK.lock().unwrap().reading }
 pub(crate) fn snapshot() -> (u64, u64) {
    let c = CLOCK.lock().unwrap();
    (c.total_readings, c.now_ns)
+}
+
+/// Harness: reading indices (since the plan was installed) of the deadline checks seen so far.
+pub fn deadline_checks() -> Vec<u64> { CLOCK.lock().unwrap().deadline_checks.clone() }
+
+fn read_for_elapsed(of: u64) -> u64 {
+   {
+      let mut c = CLOCK.lock().unwrap();
+      if c.start_value == Some(of) {
+         let idx = c.reading;
+         c.deadline_checks.push(idx);
+      }
+   }
+   read()
 }
 
 fn read() -> u64 {
@@ -64,6 +87,9 @@ fn read() -> u64 {
       }
    }
    c.now_ns = c.now_ns.saturating_add(add);
+   if c.start_value.is_none() {
+      c.start_value = Some(c.now_ns);
+   }
    c.now_ns
 }
 
@@ -73,7 +99,7 @@ pub struct Instant(u64);
 impl Instant {
    pub fn now() -> Instant { Instant(read()) }
 
-   pub fn elapsed(&self) -> Duration { Instant::now() - *self }
+   pub fn elapsed(&self) -> Duration { Instant(read_for_elapsed(self.0)) - *self }
 
    pub fn duration_since(&self, earlier: Instant) -> Duration { Duration::from_nanos(self.0.saturating_sub(earlier.0)) }
 
